@@ -107,6 +107,8 @@ TS = {
     'span-yearend': dict(span=[((2023, 12, 31, 23, 50, 0, 0), (2024, 1, 1, 0, 10, 0, 500000))]),
     'span-past': dict(span=[((2020, 1, 1, 0, 0, 0, 0), (2020, 1, 2, 0, 0, 0, 0))]),
     'span-empty': dict(span=[]),
+    # past-dated range whose endpoints have the times of day of block 'hour'
+    'span-past-hour': dict(span=[((2023, 2, 28, 12, 0, 0, 0), (2023, 2, 28, 13, 0, 0, 0))]),
     # past-dated range with the same times of day as 'span' (a yearly event being updated)
     'span-past-same': dict(span=[((2023, 2, 28, 12, 10, 0, 0), (2023, 2, 28, 12, 20, 0, 0))]),
     'span-two': dict(span=[((2024, 2, 28, 11, 50, 0, 0), (2024, 2, 28, 12, 15, 0, 0)),
@@ -281,11 +283,11 @@ def configs(tier):
         out.append(dict(kind='start', blocks=names, t0=DAY + 11 * 3600 * US + 7, span=14 * 3600 * US,
                         read_lat=1, utc=False, actions=()))
     # S2: reconfiguration of block y (and of x itself) around a boundary of block x
-    pairs = [('hour', 'span-past-same', 'span'), ('hour', 'offhour', 'micro'), ('offhour', 'hour', 'two'), ('wrap', 'offhour', 'adjacent'),
+    pairs = [('hour', 'span-past-hour', 'span'), ('hour', 'span-past-same', 'span'), ('hour', 'offhour', 'micro'), ('offhour', 'hour', 'two'), ('wrap', 'offhour', 'adjacent'),
              ('span', 'hour', 'offhour'), ('adjacent', 'span-two', 'span'), ('two', 'none', 'offhour'),
              ('hour', 'span-empty', 'span-two'), ('micro', 'offhour', 'wrap')]
     if tier == 'quick':
-        pairs = pairs[:6]
+        pairs = pairs[:7]
     for x, y, y2 in pairs:
         for b in first_boundaries(x)[:2]:
             for off in OFFSETS:
@@ -323,6 +325,15 @@ def configs(tier):
                 out.append(dict(kind='reconfig-days', blocks=(old, 'hour'), t0=t0,
                                 span=int(25 * 3600 * US), read_lat=1, utc=False, actions=act,
                                 max_dev=0))
+    # S2f: a block restricted by dates / weekdays that do not match today is reconfigured to
+    # times only (and the other way round)
+    for old in ('thu', 'feb29', 'weekend', 'leapday', 'dates'):
+        for new in ('hour', 'offhour', 'two', 'wrap'):
+            for a, b in ((old, new), (new, old)):
+                t0 = DAY + 11 * 3600 * US + 50 * 60 * US
+                act = (('reconfig', t0 + 5 * 60 * US + 7, 0, b, 0),)
+                out.append(dict(kind='reconfig-days', blocks=(a, 'hour'), t0=t0, span=int(14 * 3600 * US),
+                                read_lat=1, utc=False, actions=act, max_dev=0))
     # S2c: a block's output event reconfigures another block that shares the boundary, i.e. the
     # reconfiguration arrives from inside the scheduler's own round (both set orders)
     for a, b, new in (('offhour', 'share', 'two'), ('offhour', 'adjacent', 'hour'),
